@@ -285,6 +285,10 @@ def gen_doc(t, rng, ctx, n=None, strict=False):
                 continue
             seen.add(key)
             out.append((key, gen_doc(t[2], rng, ctx)))
+        if out and ctx.arch in DUPLICATE_KEY_ARCHS and rng.random() < 0.12:
+            # a key that occurs twice in the document (JSON / XML: the object scope answers every request for it with
+            # the FIRST member of that name, and VisitKeys enumerates it twice)
+            out.insert(rng.randrange(len(out) + 1), (rng.choice(out)[0], gen_doc(t[2], rng, ctx)))
         return out
     if k == "mmap":
         rows = []
@@ -647,6 +651,7 @@ def gen_field_doc(ft, vs, rng, key, arch, strict=False):
 
 
 ABSENT = object()
+DUPLICATE_KEY_ARCHS = ("json", "xml")      # archives whose documents may carry the same key twice in the generated cases
 
 
 def gen_obj_doc(fields, rng, arch):
@@ -664,6 +669,13 @@ def gen_obj_doc(fields, rng, arch):
         rng.shuffle(members)
     if rng.random() < 0.15:
         members.insert(rng.randrange(len(members) + 1), ("unknown", rint(rng)))
+    plain = [(k, ft, vs) for k, ft, vs in fields if ft not in ("attr_int", "attr_str") and any(m[0] == k for m in members)]
+    if plain and arch in DUPLICATE_KEY_ARCHS and rng.random() < 0.1:
+        # a member that occurs twice (first member of a name wins)
+        k, ft, vs = rng.choice(plain)
+        d = gen_field_doc(ft, vs, rng, k, arch)
+        if d is not ABSENT:
+            members.insert(rng.randrange(len(members) + 1), (k, d))
     return members
 
 
@@ -912,7 +924,10 @@ def parse_val(out):
     return m, t[2]
 
 
-def judge_c17(line, impl_out):
+def judge_c17(line, impl_out, in_class=None):
+    """in_class: the F32 class of the case as decided by the extracted predicate (True / False / None = not applicable or
+    not asked).  Outside the class the capped report must be the full-strength one: every reported path with ALL its
+    failing messages (T_C17_capped_outside); inside it a path may have lost its later messages"""
     f = line.split(" ")
     arch, ci, mx, pol = f[1], int(f[2]), int(f[3]), f[4]
     if impl_out.split("(")[0] in ("CRASH", "SANITIZER", "TERMINATE", "HANG"):
@@ -973,6 +988,8 @@ def judge_c17(line, impl_out):
             return "FAIL", "path %s: reported %s, failing validators give %s" % (p, ms, exp[p])
         if mx > 0 and ms != exp[p][:len(ms)]:
             return "FAIL", "path %s: reported %s is not a prefix of %s" % (p, ms, exp[p])
+        if mx > 0 and in_class is False and ms != exp[p]:
+            return "FAIL", "outside the F32 class, but path %s lost messages: reported %s of %s" % (p, ms, exp[p])
     if mx == 0:
         for p in exp:
             if p not in got:
@@ -1032,12 +1049,28 @@ def load_corpus(prop):
 STALE_KNOWN = []     # filled by known_findings(): listed entries whose witness answers differently now (reported as diffs)
 
 
-def known_findings(prop, vlib, impl):
+def class_of(vlib, model, lines):
+    """the defect class of each case, decided by the extracted class predicate of the theorems (has_unloaded for C18 / F36,
+    truncated for C17 / F32; coq/ArchProofs.v, coq/ArchValidation.v): 'IN' / 'OUT', 'NA' where the statement has no class
+    (map load modes, no cap, the load ends with another error)"""
+    q = []
+    for line in lines:
+        f = line.split(" ")
+        f[0] = {"popload": "popclass", "validate": "valclass"}.get(f[0], f[0])
+        q.append(" ".join(f))
+    return vlib.run_driver(model, q) if q else []
+
+
+def known_findings(prop, vlib, impl, model=None):
     known_lines = []
     kn = [k for k in vlib.load_known(prop) if k.get("status") == "known"]
     if kn:
         outs = vlib.run_driver(impl, [k["case"] for k in kn], jobs=1)
-        for k, o in zip(kn, outs):
+        cls = class_of(vlib, model, [k["case"] for k in kn]) if model is not None else [None] * len(kn)
+        for k, o, c in zip(kn, outs, cls):
+            if c == "OUT":
+                STALE_KNOWN.append(dict(driver="arch", case=k["case"], implementation=o, model=k["implementation"], judge="KNOWN-FINDING-CHANGED",
+                                        why="the witness of listed known finding %s lies outside the class its theorems exclude" % k["id"]))
             if o == k["implementation"]:
                 known_lines.append("%s: %s [case: %s -> %s]" % (k["id"], k["what"], k["case"], o))
             else:
